@@ -264,7 +264,10 @@ func c11R4(c *Ctx) {
 		return func(v ssa.Value) bool { call, _ := callOf(v); return call != nil && calleeID(&call.Call) == id }
 	}
 	rx, rf := isCall("(*trzsz.trzszError).isRemoteExit"), isCall("(*trzsz.trzszError).isRemoteFail")
-	okT := func(v ssa.Value) bool { e, isE := v.(*ssa.Extract); return isE && e.Index == 1 && func() bool { _, ta := e.Tuple.(*ssa.TypeAssert); return ta }() }
+	okT := func(v ssa.Value) bool {
+		e, isE := v.(*ssa.Extract)
+		return isE && e.Index == 1 && func() bool { _, ta := e.Tuple.(*ssa.TypeAssert); return ta }()
+	}
 	for _, name := range []string{"trzszTransfer.clientError", "trzszTransfer.serverError"} {
 		f := c.fn(name)
 		sends := callsIn(f, idIs(tT+"sendString"))
@@ -298,6 +301,19 @@ func c11R4(c *Ctx) {
 					any = true
 				}
 			}
+			if w.tell {
+				// and on every such path, not on some: no exit is reachable under the assumption without a tell
+				no := contradicts(w.as)
+				hit, path := reachFromE(f.Blocks[0], 0, isReturn, func(in ssa.Instruction) bool {
+					ci, isCall := in.(ssa.CallInstruction)
+					if !isCall {
+						return false
+					}
+					id := calleeID(ci.Common())
+					return id == tT+"sendString" || id == tT+"serverExit"
+				}, no)
+				c.check(hit == nil, name+"/always-tells-peer@"+w.nm, c.pos(f.Pos()), "every exit of the reporter for an error of this kind has told the peer", "the reporter can return for '"+w.nm+"' without having told the peer why (the peer waits out its timeout and ends with the wrong reason)", c.pathStr(path)...)
+			}
 			c.check(any == w.tell, name+"/tells-peer@"+w.nm, c.pos(f.Pos()), "the peer is told about an error exactly when it is still in the protocol (not when the error is its own exit / fail message)", "for '"+w.nm+"' the reporter "+map[bool]string{true: "writes a fail line to a peer that already left (it lands on the remote shell)", false: "does not tell the peer why the transfer failed"}[any])
 		}
 	}
@@ -313,8 +329,8 @@ func c11R4(c *Ctx) {
 	}
 	all := []string{"EXIT", "fail", "FAIL"}
 	for _, cl := range []struct {
-		fn   string
-		yes  map[string]bool
+		fn  string
+		yes map[string]bool
 	}{{"trzszError.isRemoteExit", map[string]bool{"EXIT": true}}, {"trzszError.isRemoteFail", map[string]bool{"fail": true, "FAIL": true}}} {
 		f := c.fn(cl.fn)
 		for _, actual := range append(append([]string{}, all...), "other") {
@@ -591,7 +607,10 @@ func c11StageExits(c *Ctx) {
 						return true
 					}
 				}
-				if has("empty") && factZero([]fact{fc}, func(v ssa.Value) bool { call, _ := callOf(v); return call != nil && calleeID(&call.Call) == "builtin len" }) { // end-of-data chunk
+				if has("empty") && factZero([]fact{fc}, func(v ssa.Value) bool {
+					call, _ := callOf(v)
+					return call != nil && calleeID(&call.Call) == "builtin len"
+				}) { // end-of-data chunk
 					return true
 				}
 				if has("sizeGE") && factCmp([]fact{fc}, token.GEQ, anyValue, func(y ssa.Value) bool { // the read loop: step >= size
